@@ -50,7 +50,7 @@ def run_case(wd, plugins):
                 names.append('no_such_module_%d.P%d' % (id(out), i))
                 continue
             faults = {FAULT_NAME.get(f, f) for f in rec['faults']}
-            p = R.role_plugin('P%d' % i, set(rec['roles']), faults=faults, order_=rec['order'])
+            p = R.role_plugin('P%d' % i, set(rec['roles']), faults=faults, order_=rec['order'] - 1)
             p.is_active = types.MethodType(Plugin.is_active, p)       # the real activation rule
             insts[i] = p
 
@@ -63,7 +63,10 @@ def run_case(wd, plugins):
             names.append('%s.P%d' % (m.__name__, i))
             if rec['load'] == 'inactive':
                 custom['PLUGIN_P%d' % i] = 'false'
-        custom['PLUGINS'] = names
+        # the first half plays the built-in plugin list, the rest is configured by the user: one combined order
+        nb = len(names) // 2
+        plugin_mod.DEEP_PLUGINS = names[:nb]
+        custom['PLUGINS'] = names[nb:]
         tps = TracepointConfigService()
         cfg = ConfigService(custom, tracepoints=tps)
         deep = Deep(cfg)
@@ -164,6 +167,47 @@ def compare(final, real):
     return problems
 
 
+CURATED = [
+    # a failing tracepoint logger on a snapshot+log tracepoint (results queued behind the log result)
+    [dict(load='ok', order=1, roles=['log'], faults=['log']), dict(load='ok', order=1, roles=['decorate', 'span'], faults=[])],
+    # a user plugin ordered before the built-in ones
+    [dict(load='ok', order=1, roles=['decorate', 'log'], faults=[]), dict(load='ok', order=0, roles=['decorate', 'log'], faults=[])],
+    [dict(load='ok', order=2, roles=['metric', 'span'], faults=['metric']), dict(load='ok', order=1, roles=['metric', 'span'], faults=[]),
+     dict(load='ok', order=0, roles=['metric', 'span'], faults=['close_span'])],
+    [dict(load='ok', order=1, roles=['resource', 'decorate', 'log'], faults=['resource', 'decorate']),
+     dict(load='inactive', order=0, roles=['decorate'], faults=[]), dict(load='ok', order=1, roles=['decorate', 'span'], faults=['create_span'])],
+    [dict(load='ctor_fails', order=0, roles=['log'], faults=[]), dict(load='unimportable', order=0, roles=['log'], faults=[]),
+     dict(load='ok', order=2, roles=['log', 'metric'], faults=['shutdown'])],
+]
+
+
+def curated_finals():
+    """Terminal states of the spec for the curated configurations (one TLC run, the configurations pinned)."""
+    def rec(p):
+        return '[load |-> %s, order |-> %d, roles |-> %s, faults |-> %s]' % (
+            tlc.tla_lit(p['load']), p['order'], tlc.tla_lit(set(p['roles'])), tlc.tla_lit(set(p['faults'])))
+    sets = ', '.join('<<' + ', '.join(rec(p) for p in cfg) + '>>' for cfg in CURATED)
+    text = """---- MODULE MC_PluginsPinned ----
+EXTENDS Plugins
+PinnedSet == {%s}
+PinnedInit == /\\ plugins \\in PinnedSet /\\ phase = 0 /\\ loaded = <<>> /\\ spansOpen = {} /\\ aborted = {}
+              /\\ called = [i \\in 1..Len(plugins) |-> <<>>]
+PinnedNext == Load \\/ Activity \\/ (phase = Len(Callbacks) + 1 /\\ UNCHANGED vars)
+====
+""" % sets
+    wd = tlc.scratch('c20pin_')
+    path = wd + '/MC_PluginsPinned.tla'
+    with open(path, 'w') as f:
+        f.write(text)
+    r = tlc.run('MC_PluginsPinned', cfg=dict(init='PinnedInit', next_='PinnedNext',
+                                             constants=dict(MaxPlugins=3, AbortOnFirstFailure=False, Rich=True),
+                                             invariants=INVS, deadlock=False),
+                dump=True, coverage=False, extra_modules=[path])
+    if not r.ok:
+        raise tlc.MachineryError('pinned plugin configurations violate %s' % r.violation)
+    return r, [st for st in r.graph.states.values() if st['phase'] == 8]
+
+
 def run(c):
     quick = c.tier == 'quick'
     wd = tlc.scratch('c20_')
@@ -183,8 +227,11 @@ def run(c):
     sim = tlc.simulate('Plugins', mc_cfg(n=3, rich=True), num=60 if quick else 1500, depth=14, seed=c.seed + 11)
     c.transitions += sim.generated
     shown = 0
-    for beh in sim.behaviours:
-        final = beh[-1][2]
+    r_pin, pinned = curated_finals()
+    c.states += r_pin.distinct
+    c.transitions += r_pin.generated
+    finals = pinned + [beh[-1][2] for beh in sim.behaviours]
+    for final in finals:
         if final['phase'] != 8:
             continue
         plugins = to_json(final['plugins'])
